@@ -22,9 +22,9 @@ RULE = ("random programs as in C03/C05 (5 leaf kinds, nested tock-0 and tock>0 D
 LEVEL_TEXT = ("The two runners are compared event-for-event on every generated program; any divergence in order, tyme, "
               "completion cycle, flags or forced exits is a violation. Held on the program pairs observed.")
 LEVEL_NOTE = "trusted: vf/sched.py recorder; asyncio's default event loop; non-real-time mode only"
-ASSUMPTIONS = ["non-real-time mode (the statement's scope)", "KeyboardInterrupt delivery is not compared (asyncio.run handles SIGINT itself)"]
+ASSUMPTIONS = ["non-real-time mode (the statement's scope)", "a real SIGINT is not delivered (asyncio.run installs its own handler); a KeyboardInterrupt raised while a doer has control is compared"]
 NSHARDS = {"quick": 8, "thorough": 16}
-REQUIRE = {"pairs_compared": 1200, "events_compared": 50000, "exception_exits_compared": 150,
+REQUIRE = {"kbint_in_doer_pairs": 60, "runtime_extend_remove_pairs": 200, "doers_passed_as_tuple_or_generator": 80, "pairs_compared": 1200, "events_compared": 50000, "exception_exits_compared": 150,
            "limit_exits_compared": 300, "with_foreign_task": 400}
 
 
@@ -36,8 +36,34 @@ def cases(tier, seed, shard, nshards):
         prog = gen_sched.gen_prog(rng, dyadic=dyadic, nmax=7, depth=2, group_p=rng.choice([0.0, 0.35]),
                                   group_tocks=(0.0, 0.0, 0.5, 1.0) if dyadic else (0.0, 0.3), limit_p=0.4)
         fault = None
-        if rng.random() < 0.25:
+        r = rng.random()
+        if r < 0.25:
             fault = gen_sched.add_fault(rng, prog)
+        elif r < 0.35:
+            # KeyboardInterrupt raised while a doer has control: both runners treat it as a forced shutdown and return
+            fault = gen_sched.add_fault(rng, prog, kinds=("recur",), exc="KeyboardInterrupt")
+        if prog.get("do_args"):
+            prog["doers_as"] = rng.choice(["list", "tuple", "generator"])
+        if rng.random() < 0.3:
+            # runtime extend/remove issued by running doers against the Doist (same scripts for both runners)
+            callers = [lf for lf in gen_sched.leaves_of(prog["doers"]) if lf.get("enter") == "ok"]
+            members = [n_["id"] for n_ in prog["doers"]]
+            if callers:
+                ids = gen_sched.Ids()
+                ids.n = 700
+                pool = [gen_sched.gen_leaf(rng, ids, prog["tock"], dyadic=dyadic, forever_p=0.4) for _ in range(rng.randint(1, 2))]
+                prog["pool"] = pool
+                for _ in range(rng.randint(1, 3)):
+                    caller = rng.choice(callers)
+                    last = caller["end"][0] if caller.get("end") and caller["end"][1] == "return" else 4
+                    k = rng.randint(1, max(1, last))
+                    if rng.random() < 0.6:
+                        act = ["extend", "doist", [rng.choice(pool)["id"]], False]
+                    else:
+                        act = ["remove", "doist", [rng.choice(members)], False]
+                    caller.setdefault("acts", {}).setdefault(str(k), []).append(act)
+                if prog["limit"] is None and gen_sched.needs_limit(prog["doers"] + pool):
+                    prog["limit"] = prog["tock"] * 10 if dyadic else 2.05
         yield {"prog": prog, "fault": fault, "foreign": rng.random() < 0.5}
 
 
@@ -62,6 +88,12 @@ def run_case(case, ctx):
                       trace=sched.compact(r1)[-60:])
         return
     ctx.count("pairs_compared")
+    if (case.get("fault") or {}).get("exc") == "KeyboardInterrupt":
+        ctx.count("kbint_in_doer_pairs")
+    if prog.get("pool"):
+        ctx.count("runtime_extend_remove_pairs")
+    if prog.get("do_args") and prog.get("doers_as") in ("tuple", "generator"):
+        ctx.count("doers_passed_as_tuple_or_generator")
     if case.get("foreign"):
         ctx.count("with_foreign_task")
         ctx.count("foreign_task_iterations", getattr(r2, "noise", 0))
